@@ -60,8 +60,10 @@ def rule_dominance(report, prog):
     # FelicaLite._authenticate
     g = prog.func(SONY + '.FelicaLite._authenticate')
     gc = cfg_of(g)
-    ver = [(t, 'true') for e, t in gc.test_nodes.items() if isinstance(e, ast.Compare) and isinstance(e.ops[0], ast.Eq)
-           and norm(e) == 'data[-16:-8] == self.generate_mac(data[0:-16], sk, iv=rc[0:8])']
+    # (the comparison may be written `==` with the success branch or `!=` with an early return)
+    ver = [(t, 'true' if isinstance(e.ops[0], ast.Eq) else 'false') for e, t in gc.test_nodes.items()
+           if isinstance(e, ast.Compare) and len(e.ops) == 1 and isinstance(e.ops[0], (ast.Eq, ast.NotEq))
+           and sorted([norm(e.left), norm(e.comparators[0])]) == sorted(['data[-16:-8]', 'self.generate_mac(data[0:-16], sk, iv=rc[0:8])'])]
     n = 0
     for text in ('self._sk = sk', 'self._iv = rc[0:8]', 'self._authenticated = True', 'self.read_from_ndef_service = self.read_with_mac'):
         nodes = [x for x in gc.nodes if x.kind == 'stmt' and x.ast is not None and norm(x.ast) == text]
